@@ -655,9 +655,14 @@ class TunnelCommunity(Community):
             # This attempt is complete: its retry cache must not fire anymore, whatever happens to the candidate list.
             cache = self.request_cache.pop(RetryRequestCache, circuit.circuit_id)
 
-            candidates_enc = payload.candidates_enc
-            candidates_bin = session_keys.decrypt_str(candidates_enc, FORWARD)
-            candidates, _ = self.serializer.unpack("varlenH-list", candidates_bin)
+            try:
+                candidates_enc = payload.candidates_enc
+                candidates_bin = session_keys.decrypt_str(candidates_enc, FORWARD)
+                candidates, _ = self.serializer.unpack("varlenH-list", candidates_bin)
+            except Exception:
+                # Without its retry cache nothing would ever give this circuit up again.
+                self.remove_circuit(circuit.circuit_id, "undecodable candidate list")
+                return
             candidates = cast("list[object]", candidates)
 
             relay_candidates = candidates
